@@ -17,6 +17,8 @@ func init() {
 		func(t *vcTrial) { vcRunC18(t, []int{16, 3}, 256, false) },
 		vcRunC18GrowthFails,
 		vcRunC18GrowthFails,
+		func(t *vcTrial) { vcRunC18Even(t, 3, 8, 100000) },
+		func(t *vcTrial) { vcRunC18Even(t, 7, 16, 50000) },
 	}
 }
 
@@ -24,6 +26,10 @@ func vcScenC18(t *vcTrial) {
 	r := t.R
 	if r.intn(12) == 0 {
 		vcRunC18GrowthFails(t)
+		return
+	}
+	if r.intn(15) == 0 {
+		vcRunC18Even(t, []int{2, 3, 5, 7}[r.intn(4)], []int{2, 4, 8, 16}[r.intn(4)], 30000)
 		return
 	}
 	n := r.rng(1, 4)
@@ -336,31 +342,7 @@ func vcRunC18GrowthFails(t *vcTrial) {
 			defer func() { recover() }()
 			m.Close()
 		}()
-		// the loops exit and close their descriptors on their own goroutines: wait for that, the next
-		// trial's ledger must not see this trial's closes
-		for dl := time.Now().Add(5 * time.Second); time.Now().Before(dl); {
-			adopt, closed := map[uintptr]int{}, map[uintptr]int{}
-			audit.mu.Lock()
-			for _, e := range audit.fds {
-				if e.Kind == vfdEpoll || e.Kind == vfdEventfd {
-					adopt[e.Owner]++
-				}
-				if e.Kind == -vfdEpoll || e.Kind == -vfdEventfd {
-					closed[e.Owner]++
-				}
-			}
-			audit.mu.Unlock()
-			balanced := true
-			for o, n := range adopt {
-				if closed[o] < n {
-					balanced = false
-				}
-			}
-			if balanced {
-				break
-			}
-			time.Sleep(200 * time.Microsecond)
-		}
+		vc18Settle(audit)
 	}()
 	for i := 0; i < 2*k0; i++ {
 		if p := m.Pick(); p == nil {
@@ -452,4 +434,98 @@ func vcRunC18GrowthFails(t *vcTrial) {
 		}
 	}
 	t.Nontrivial, t.Sig = true, fmt.Sprintf("growth-fails|%s", vcFaultSiteNames[site])
+}
+
+// vcRunC18Even: round-robin under truly parallel Picks, many of them: a few pollers, a handful of
+// goroutines, tens of thousands of picks each (the wrap of the balancer's counter is crossed
+// thousands of times by several goroutines at once). Per-poller counts differ by at most one.
+func vcRunC18Even(t *vcTrial, k, goroutines, per int) {
+	t.P("variant", "round-robin evenness under parallel picks")
+	t.P("loops", k)
+	t.P("goroutines", goroutines)
+	t.P("picks_each", per)
+	audit := vcStartAudit()
+	m := newManager(k)
+	defer func() {
+		m.Close()
+		vc18Settle(audit)
+	}()
+	m.Pick() // initialise
+	counts := make([]map[Poll]int, goroutines)
+	var wg sync.WaitGroup
+	start := make(chan struct{})
+	for g := 0; g < goroutines; g++ {
+		counts[g] = map[Poll]int{}
+		wg.Add(1)
+		go func(c map[Poll]int) {
+			defer wg.Done()
+			<-start
+			for i := 0; i < per; i++ {
+				c[m.Pick()]++
+			}
+		}(counts[g])
+	}
+	close(start)
+	wg.Wait()
+	total := map[Poll]int{}
+	n := 0
+	for _, c := range counts {
+		for p, v := range c {
+			if p == nil {
+				t.Violate("C18", "nil_poller", "Pick returned nil")
+				return
+			}
+			total[p] += v
+			n += v
+		}
+	}
+	if len(total) != k {
+		t.Violate("C18", "pool_size", "%d parallel round-robin picks over a pool of %d handed out %d distinct pollers", n, k, len(total))
+		return
+	}
+	lo, hi := n, 0
+	for _, c := range total {
+		if c < lo {
+			lo = c
+		}
+		if c > hi {
+			hi = c
+		}
+	}
+	// the initialising Pick above is one more for the first poller
+	if hi-lo > 2 {
+		t.Violate("C18", "uneven", "%d consecutive round-robin picks from %d goroutines over %d pollers were spread %v (max-min = %d)", n, goroutines, k, vc18Counts(total), hi-lo)
+		return
+	}
+	t.Stat("parallel_roundrobin_picks", n)
+	t.Nontrivial, t.Sig = true, fmt.Sprintf("even|k=%d|g=%d", k, vmClassI(goroutines))
+}
+
+// vc18Settle waits (bounded) until every poller descriptor the ledger saw opened has been closed:
+// loops exit and close their descriptors on their own goroutines, and the next trial's ledger must
+// not see this trial's closes.
+func vc18Settle(audit *vcAudit) {
+	for dl := time.Now().Add(5 * time.Second); time.Now().Before(dl); {
+		adopt, closed := map[uintptr]int{}, map[uintptr]int{}
+		audit.mu.Lock()
+		for _, e := range audit.fds {
+			if e.Kind == vfdEpoll || e.Kind == vfdEventfd {
+				adopt[e.Owner]++
+			}
+			if e.Kind == -vfdEpoll || e.Kind == -vfdEventfd {
+				closed[e.Owner]++
+			}
+		}
+		audit.mu.Unlock()
+		balanced := true
+		for o, n := range adopt {
+			if closed[o] < n {
+				balanced = false
+			}
+		}
+		if balanced {
+			return
+		}
+		time.Sleep(200 * time.Microsecond)
+	}
 }
